@@ -10,6 +10,11 @@ import (
 // replay template is registered for the obligation's function; otherwise the violation is reported with
 // the solver output only (no-failing-input-found).
 func tryReplay(rf *ReplayFile, o *Obligation, p *Program, repo string) {
+	if o.Kind == "bounded" && o.BoundedTest != "" {
+		// the bounded enumeration ran on the real code and failed: its test and output ARE the replay
+		rf.TestPkg, rf.TestFile, rf.GoTestOut, rf.Reproduced = "command", o.BoundedTest, o.BoundedOut, true
+		return
+	}
 	for _, t := range replayTemplates {
 		if t.match(o) {
 			t.run(rf, o, p, repo)
